@@ -1,5 +1,15 @@
-(* C10 — writer streams: flushed bytes are final, and complete when no sized master is open.  Statements only. *)
-From Ebml Require Import Base Tools Spec Writer Proofs.Tactics Proofs.SpecProofs Proofs.WriterProofs.
+(* C10 — writer streams: flushed bytes are final, and complete when no sized master is open.  Statements only.
+   First part: the delivered bytes only grow; nothing is held back unless a known-size master is open.
+   Second part (snapshots, Proofs/Snapshots.v): what the delivered bytes ARE while masters are still open.  A call sequence that
+   leaves masters open is [wops_open d L f]: for each open master (the levels L of Proofs/Partial.v, outermost first) the complete
+   sibling trees [lv_f] written before it, then its Start (unknown size by option when [lv_size] = None, else a known-size
+   Start), and finally the complete trees f written at the innermost level.  While every open master has unknown size the
+   destination holds exactly the encoding of everything written so far, and the strict reader parses it to exactly the tags
+   written so far, followed by the Ends of the open masters (innermost first) that it supplies at the end of the input.  When some
+   open master has a known size, the destination holds exactly what precedes the outermost such master.
+   PARTIAL (second part): declared paths without global placeholders, one write call per tag, a destination that accepts
+   everything — the scope of [wconf]/[rconf], as in C01. *)
+From Ebml Require Import Base Tools Spec Writer Reader Pure Encode Proofs.Tactics Proofs.SpecProofs Proofs.WriterProofs Proofs.RoundTrip Proofs.WriteEnc Proofs.Nesting Proofs.Partial Proofs.Snapshots.
 
 (* bytes handed to the destination are never retracted or altered: every call only appends to them, for every call,
    state, specification and destination write script *)
@@ -38,3 +48,119 @@ Example C10_ex :
   map snd (snd (wrun sp (w_init []) [OpWrite (TStart 129) u; OpWrite (TStart 16643) o_default; OpWrite (TElem 16642 (VB [7])) o_default;
                                     OpWrite (TEnd 16643) o_default; OpFlush])) = [9; 9; 9; 16; 16]%nat.
 Proof. vm_compute. reflexivity. Qed.
+
+(* ---- snapshots: the delivered bytes while masters are open *)
+
+(* every open master of unknown size: every call succeeds and the destination holds exactly the encoding of everything written so
+   far — every complete tree, and the header (id, unknown-size marker) of every open master; nothing is buffered *)
+Theorem C10_snapshot_bytes_partial : forall sp d L f, Forall lv_unknown L -> wconf_levels sp d [] L ->
+  Forall (wconf sp d (lv_ids [] L)) f ->
+  Forall (fun r => fst r = WOk) (fst (run_writer sp (wops_open d L f) [])) /\
+  snd (run_writer sp (wops_open d L f) []) = enc_levels L ++ enc_forest f.
+Proof. exact snapshot_bytes. Qed.
+
+(* the strict reader parses the delivered bytes to exactly the items written so far, then ends the open masters (innermost
+   first), then reports the end of the input: [out_tdoc] of the document cut on a tag boundary (C12) *)
+Theorem C10_snapshot_parses_partial : forall c d L f, strict c -> c_buffered c = [] -> c_emit_eof c = true ->
+  Forall lv_unknown L -> wconf_levels (c_sp c) d [] L -> Forall (wconf (c_sp c) d (lv_ids [] L)) f ->
+  rconf_levels c L -> Forall (rconf c) f ->
+  p_run c (snd (run_writer (c_sp c) (wops_open d L f) [])) [RAll] = out_tdoc (snapshot_doc L f).
+Proof. exact snapshot_parses. Qed.
+
+(* the tags alone: exactly the tags of the calls made so far, then the Ends of the open masters, then None *)
+Theorem C10_snapshot_tags_partial : forall c d L f, strict c -> c_buffered c = [] -> c_emit_eof c = true ->
+  Forall lv_unknown L -> wconf_levels (c_sp c) d [] L -> Forall (wconf (c_sp c) d (lv_ids [] L)) f ->
+  rconf_levels c L -> Forall (rconf c) f ->
+  map out_tag (p_run c (snd (run_writer (c_sp c) (wops_open d L f) [])) [RAll]) =
+    map op_tag (wops_open d L f) ++ map Some (open_ends L) ++ [None].
+Proof. exact snapshot_tags. Qed.
+
+Theorem C10_snapshot_out_tags_partial : forall c d L f, strict c -> c_buffered c = [] -> c_emit_eof c = true ->
+  Forall lv_unknown L -> wconf_levels (c_sp c) d [] L -> Forall (wconf (c_sp c) d (lv_ids [] L)) f ->
+  rconf_levels c L -> Forall (rconf c) f ->
+  out_tags (p_run c (snd (run_writer (c_sp c) (wops_open d L f) [])) [RAll]) = tags_levels L ++ tags_forest f ++ open_ends L.
+Proof. exact snapshot_out_tags. Qed.
+
+(* every call is a write call, so [map op_tag] loses nothing *)
+Theorem C10_snapshot_calls : forall d L f, map op_tag (wops_open d L f) = map Some (tags_levels L ++ tags_forest f).
+Proof. exact op_tags_open. Qed.
+
+(* the held case: lvk is the outermost open master of known size (all of L1 have unknown size).  Every call still succeeds, and
+   the destination holds exactly the encoding of what precedes lvk's Start, whatever has been written since *)
+Theorem C10_snapshot_held_partial : forall sp d L1 lvk L2 f, Forall lv_unknown L1 -> lv_size lvk <> None ->
+  wconf_levels sp d [] (L1 ++ lvk :: L2) -> Forall (wconf sp d (lv_ids [] (L1 ++ lvk :: L2))) f ->
+  Forall (fun r => fst r = WOk) (fst (run_writer sp (wops_open d (L1 ++ lvk :: L2) f) [])) /\
+  snd (run_writer sp (wops_open d (L1 ++ lvk :: L2) f) []) = enc_levels L1 ++ enc_forest (lv_f lvk).
+Proof. exact snapshot_held. Qed.
+
+(* ... which parses to exactly the tags written before lvk's Start, and the Ends of the masters of L1 *)
+Theorem C10_snapshot_held_parses_partial : forall c d L1 lvk L2 f, strict c -> c_buffered c = [] -> c_emit_eof c = true ->
+  Forall lv_unknown L1 -> lv_size lvk <> None ->
+  wconf_levels (c_sp c) d [] (L1 ++ lvk :: L2) -> Forall (wconf (c_sp c) d (lv_ids [] (L1 ++ lvk :: L2))) f ->
+  rconf_levels c L1 -> Forall (rconf c) (lv_f lvk) ->
+  p_run c (snd (run_writer (c_sp c) (wops_open d (L1 ++ lvk :: L2) f) [])) [RAll] = out_tdoc (snapshot_doc L1 (lv_f lvk)).
+Proof. exact snapshot_held_parses. Qed.
+
+(* the hypotheses are satisfiable: Root (unknown size, open) { UInt 5; Parent (unknown size, open) { Bin [7] } } *)
+Definition C10_sp : spec :=
+  [ {| e_id := 129; e_ty := DMaster; e_path := [] |}; {| e_id := 16643; e_ty := DMaster; e_path := [PId 129] |};
+    {| e_id := 16642; e_ty := DBinary; e_path := [PId 129; PId 16643] |}; {| e_id := 16641; e_ty := DUInt; e_path := [PId 129] |} ].
+Definition C10_cfg : cfg :=
+  {| c_sp := C10_sp; c_allow_id := false; c_allow_hier := false; c_allow_over := false; c_max := Some 4000000000; c_buffered := [];
+     c_emit_eof := true |}.
+Definition C10_levels (parent_size : option N) : list level :=
+  [ {| lv_f := []; lv_id := 129; lv_sl := 8; lv_size := None |};
+    {| lv_f := [RLeaf 16641 (VU 5) [5] 1%nat]; lv_id := 16643; lv_sl := 1; lv_size := parent_size |} ].
+Definition C10_f : list rtree := [RLeaf 16642 (VB [7]) [7] 1%nat].
+
+Example C10_ex_snapshot_conf : strict C10_cfg /\ Forall lv_unknown (C10_levels None) /\
+  (forall ps, wconf_levels C10_sp true [] (C10_levels ps)) /\
+  (forall ps, Forall (wconf C10_sp true (lv_ids [] (C10_levels ps))) C10_f) /\ rconf_levels C10_cfg (C10_levels None) /\
+  Forall (rconf C10_cfg) C10_f.
+Proof.
+  assert (I1 : idok 129) by (exists 1%nat, 1%N; repeat split; cbn; lia).
+  assert (I2 : idok 16643) by (exists 2%nat, 259%N; repeat split; cbn; lia).
+  assert (I3 : idok 16642) by (exists 2%nat, 258%N; repeat split; cbn; lia).
+  assert (I4 : idok 16641) by (exists 2%nat, 257%N; repeat split; cbn; lia).
+  assert (F1 : field_ok true 1 1) by (split; [lia|split; [vm_compute; reflexivity|intros _; reflexivity]]).
+  assert (W1 : wconf C10_sp true [129%N] (RLeaf 16641 (VU 5) [5%N] 1%nat)).
+  { split; [reflexivity|]. exists DUInt. split; [reflexivity|]. split; [discriminate|]. split; [exact I|]. split; [reflexivity|exact F1]. }
+  assert (W2 : wconf C10_sp true [129%N; 16643%N] (RLeaf 16642 (VB [7%N]) [7%N] 1%nat)).
+  { split; [reflexivity|]. exists DBinary. split; [reflexivity|]. split; [discriminate|]. split; [exact I|]. split; [reflexivity|exact F1]. }
+  split; [repeat split|]. split; [repeat constructor|].
+  split.
+  { intros ps. cbn [wconf_levels C10_levels lv_f lv_id app]. split; [constructor|]. split; [reflexivity|]. split; [reflexivity|].
+    split; [constructor; [exact W1|constructor]|]. split; [reflexivity|]. split; [reflexivity|exact I]. }
+  split. { intros ps. constructor; [exact W2|constructor]. }
+  split.
+  - constructor; [split; [constructor|exact I1]|]. constructor; [|constructor]. split; [|exact I2].
+    constructor; [|constructor]. split; [exact I4|]. split; [vm_compute; reflexivity|vm_compute; discriminate].
+  - constructor; [|constructor]. split; [exact I3|]. split; [repeat constructor; lia|vm_compute; discriminate].
+Qed.
+
+(* Start Root (unknown), UInt 5, Start Parent (unknown), Bin [7]: 9, 13, 23, 27 bytes delivered after the four calls; the 27 bytes
+   are both headers with the unknown-size marker and both elements ... *)
+Example C10_ex_snapshot_bytes :
+  wops_open true (C10_levels None) C10_f =
+    [OpWrite (TStart 129) opts_unknown; OpWrite (TElem 16641 (VU 5)) o_default; OpWrite (TStart 16643) opts_unknown;
+     OpWrite (TElem 16642 (VB [7%N])) o_default] /\
+  run_writer C10_sp (wops_open true (C10_levels None) C10_f) [] =
+    ([(WOk, 9%nat); (WOk, 13%nat); (WOk, 23%nat); (WOk, 27%nat)],
+     [129; 1; 255; 255; 255; 255; 255; 255; 255; 65; 1; 129; 5; 65; 3; 1; 255; 255; 255; 255; 255; 255; 255; 65; 2; 129; 7]%N).
+Proof. split; vm_compute; reflexivity. Qed.
+
+(* ... and they parse to the four tags written, then the Ends of Parent and Root, then None *)
+Example C10_ex_snapshot_parse :
+  p_run C10_cfg (snd (run_writer C10_sp (wops_open true (C10_levels None) C10_f) [])) [RAll] =
+    [OItem (TStart 129) 0; OItem (TElem 16641 (VU 5)) 9; OItem (TStart 16643) 13; OItem (TElem 16642 (VB [7%N])) 23;
+     OItem (TEnd 16643) 13; OItem (TEnd 129) 0; ONone].
+Proof. vm_compute. reflexivity. Qed.
+
+(* Parent with a known size instead: the destination stays at the 13 bytes that precede Parent's Start, and they parse to
+   Start Root, UInt 5, End Root, None *)
+Example C10_ex_snapshot_held :
+  run_writer C10_sp (wops_open true (C10_levels (Some 4%N)) C10_f) [] =
+    ([(WOk, 9%nat); (WOk, 13%nat); (WOk, 13%nat); (WOk, 13%nat)], [129; 1; 255; 255; 255; 255; 255; 255; 255; 65; 1; 129; 5]%N) /\
+  p_run C10_cfg (snd (run_writer C10_sp (wops_open true (C10_levels (Some 4%N)) C10_f) [])) [RAll] =
+    [OItem (TStart 129) 0; OItem (TElem 16641 (VU 5)) 9; OItem (TEnd 129) 0; ONone].
+Proof. split; vm_compute; reflexivity. Qed.
